@@ -2,6 +2,7 @@ SPECIFICATION Spec
 CONSTANTS
   Mode = "sel"
   UseBindings = {}
+  BlankBindings = {}
   SitePatterns = {}
   SelShapes <- MCSelShapes
   KeepTrace = TRUE
